@@ -47,7 +47,8 @@ CHECKS = {
     text='Coq theorems over a transcription of ExcelComparator for ALL scalar values (exact rationals, date-times through '
          'their serial, code-point strings, logicals, blank): exactly one of <,=,> ; <=,>=,<> are the derived relations; '
          'a<b iff b>a; transitivity on non-blank values; number/date < text < logical; numeric, serial and lexicographic '
-         'order; blank as 0 / "" / FALSE. Tied to operators.py by all ordered pairs of a 46-value pool x 6 operators '
+         'order; blank as 0 / "" / FALSE; corollaries for every pair incl. blanks: reflexive, asymmetric, = symmetric, <= total and '
+         'antisymmetric. Tied to operators.py by all ordered pairs of a 46-value pool x 6 operators '
          'through Parser.parse plus random pairs; an independent oracle checks the laws on all pairs and triples.',
     design='7/C07',
     note='numbers are exact rationals (Python compares int/float exactly); float serials of date-times are modelled '
@@ -58,7 +59,7 @@ CHECKS = {
          'nesting: AND/OR/XOR = conjunction/disjunction/parity over the flattened leaves, flattening invariant under '
          'regrouping, NOT, IF, IFS first-true, SWITCH first-equal/default/#N/A, an error in a tested condition is the '
          'result, predicates exclusive and exact, ISNONTEXT, ISERROR = ISERR or ISNA, ISEVEN/ISODD parity of the integer '
-         'part. Tied to the code by exhaustive small tuples over a value pool and an oracle through Parser.parse.',
+         'part; over error-free items the order is irrelevant, De Morgan, XOR of two, NOT of NOT. Tied to the code by exhaustive small tuples over a value pool and an oracle through Parser.parse.',
     design='7/C12',
     note='"equal" in SWITCH is Python equality (1 = TRUE = 1.0), which the property text leaves open; text truthiness '
          '(non-empty) is modelled but not claimed by the property.',
@@ -99,7 +100,7 @@ CHECKS = {
     technique='Coq proof (structural induction on expression trees, evaluation-context relation) + random-tree correspondence'),
  'C15': dict(
     text='Coq theorems for strings of any length: LEFT/RIGHT/MID as firstn/skipn with the whole-text, empty and #VALUE! '
-         'cases, LEFT&RIGHT split, MID(s,1,n) = LEFT, LEN additive; UPPER/LOWER idempotent and character-wise, lifted from '
+         'cases, LEFT&RIGHT split, MID(s,1,n) = LEFT, LEN additive, lengths of slices, three-way LEFT&MID&RIGHT split, slices of a concatenation; UPPER/LOWER idempotent and character-wise, lifted from '
          'finite facts about the case table regenerated from the interpreter; uncased characters untouched; PROPER '
          'idempotent under a decidable per-character condition failing exactly on U+0130/U+01F0 (refuted witness, known '
          'finding); TRIM idempotent, keeps every non-space character, normal form; CLEAN = filter; CODE(CHAR n) = n; '
@@ -112,7 +113,7 @@ CHECKS = {
     text='Coq theorems for item lists of any length and nesting over a transcription of iflatten/inumbers/parse_criteria and '
          'the aggregates (statistics functions as textbook definitions in exact arithmetic): regrouping invariance for every '
          'aggregate, SUM/PRODUCT/AVERAGE/COUNT/VAR/VAR.P/MIN/MAX = definitions, MEDIAN/LARGE read off a sorted permutation, '
-         'permutation invariance of sums/products/means/variances/min/max, an error item is the result, SUMIF/COUNTIF select '
+         'permutation invariance of sums/products/means/variances/min/max, AVEDEV = mean absolute deviation (order-free), an error item is the result, SUMIF/COUNTIF select '
          'exactly the matching items, *IFS rows = conjunction of all criteria, empty selections. Tied to the code by direct '
          'calls on random grouped lists and an exact-rational oracle through Parser.parse (definitions, regroupings, '
          'permutations, criteria, error items, SLOPE, STDEV/GEOMEAN numerically).',
